@@ -245,6 +245,18 @@ def effectiveRoots (w : World) : List Nat := w.pool.getD [w.embeddedRoot]
 def validateCRL (crl : CrlF) (c : CertF) : List (Bool × String) :=
   [(crl.issuer == c.subject, "crl issuer"), (c.canSignCrl && crl.signedBy == c.keyId && c.keyId != 0, "crl signature")]
 
+/-! ### root of trust (`getTrustedRoots` / `RootOfTrustToOptions`) -/
+
+/-- a CA bundle as `AppendCertsFromPEM` sees it: `none` = the file cannot be read; otherwise the certificates it contains -/
+abbrev Bundle := Option (List Nat)
+
+/-- `getTrustedRoots`: nil pool when nothing is configured; an unreadable or certificate-free bundle is an error -/
+def rotToPool (files : List Bundle) (inline : List (List Nat)) : Outcome (Option (List Nat)) :=
+  if files.isEmpty && inline.isEmpty then .ok none
+  else if files.any (fun b => match b with | none => true | some l => l.isEmpty) then .err "CA bundle file"
+  else if inline.any (·.isEmpty) then .err "CA bundle inline"
+  else .ok (some ((files.filterMap id).flatten ++ inline.flatten))
+
 /-! ### collateral -/
 
 structure Collateral where
@@ -312,8 +324,8 @@ def getRootCrl (w : World) : List String → List String × Option CrlF
     | some (some crl) => ([u], some crl)
     | _ => let (us, r) := getRootCrl w rest; (u :: us, r)
 
-/-- `obtainCollateral`: the fetches in order; returns the URLs requested and the collateral or an error -/
-def obtainCollateral (fx : Fixes) (w : World) (fmspc ca : String) (cr : Bool) : List String × Outcome Collateral :=
+/-- the first half of `obtainCollateral`: TCB Info, then QE Identity -/
+def obtainBase (fx : Fixes) (w : World) (fmspc : String) : List String × Outcome Collateral :=
   let u1 := tcbInfoURL fmspc
   match w.fetchTcb u1 with
   | .fail => ([u1], .err "fetch tcbInfo")
@@ -338,28 +350,38 @@ def obtainCollateral (fx : Fixes) (w : World) (fmspc ca : String) (cr : Bool) : 
       | .err e => ([u1, u2], .err e)
       | .panic => ([u1, u2], .panic)
       | .ok (qdoc, qsig, qraw, qzero) =>
-      let base : Collateral := { tcbSigner := ts, tcbRoot := tr, tcb := tdoc, tcbSig := tsig, tcbRaw := traw, tcbZero := tzero,
-                                 qeSigner := qs, qeRoot := qr, qe := qdoc, qeSig := qsig, qeRaw := qraw, qeZero := qzero }
-      if !cr then ([u1, u2], .ok base)
+        ([u1, u2], .ok { tcbSigner := ts, tcbRoot := tr, tcb := tdoc, tcbSig := tsig, tcbRaw := traw, tcbZero := tzero,
+                         qeSigner := qs, qeRoot := qr, qe := qdoc, qeSig := qsig, qeRaw := qraw, qeZero := qzero })
+
+/-- the second half (only with `CheckRevocations`): PCK CRL for the leaf's issuing CA, then the Root CA CRL from the
+    distribution points of the QE-identity issuer root -/
+def obtainCrls (w : World) (ca : String) (base : Collateral) : List String × Outcome Collateral :=
+  let u3 := pckCrlURL ca
+  match w.fetchPckCrl u3 with
+  | .fail => ([u3], .err "fetch pck crl")
+  | .resp h3 b3 =>
+    match headerToIssuerChain h3 with
+    | .err e => ([u3], .err e)
+    | .panic => ([u3], .panic)
+    | .ok (cs, crt) =>
+    match b3 with
+    | none => ([u3], .err "parse pck crl")
+    | some pckCrl =>
+      let dps := (cert w base.qeRoot).crlDPs
+      if dps.isEmpty then ([u3], .err "root crl url missing")
       else
-        let u3 := pckCrlURL ca
-        match w.fetchPckCrl u3 with
-        | .fail => ([u1, u2, u3], .err "fetch pck crl")
-        | .resp h3 b3 =>
-          match headerToIssuerChain h3 with
-          | .err e => ([u1, u2, u3], .err e)
-          | .panic => ([u1, u2, u3], .panic)
-          | .ok (cs, crt) =>
-          match b3 with
-          | none => ([u1, u2, u3], .err "parse pck crl")
-          | some pckCrl =>
-            let dps := (cert w qr).crlDPs
-            if dps.isEmpty then ([u1, u2, u3], .err "root crl url missing")
-            else
-              let (us, r) := getRootCrl w dps
-              match r with
-              | none => ([u1, u2, u3] ++ us, .err "fetch root crl")
-              | some rootCrl => ([u1, u2, u3] ++ us, .ok { base with pckCrl := some (cs, crt, pckCrl), rootCrl := some rootCrl })
+        match (getRootCrl w dps).2 with
+        | none => (u3 :: (getRootCrl w dps).1, .err "fetch root crl")
+        | some rootCrl => (u3 :: (getRootCrl w dps).1, .ok { base with pckCrl := some (cs, crt, pckCrl), rootCrl := some rootCrl })
+
+/-- `obtainCollateral`: the fetches in order; returns the URLs requested and the collateral or an error -/
+def obtainCollateral (fx : Fixes) (w : World) (fmspc ca : String) (cr : Bool) : List String × Outcome Collateral :=
+  match (obtainBase fx w fmspc).2 with
+  | .err e => ((obtainBase fx w fmspc).1, .err e)
+  | .panic => ((obtainBase fx w fmspc).1, .panic)
+  | .ok base =>
+    if !cr then ((obtainBase fx w fmspc).1, .ok base)
+    else ((obtainBase fx w fmspc).1 ++ (obtainCrls w ca base).1, (obtainCrls w ca base).2)
 
 /-! ### the checks of `verifyEvidenceV4` -/
 
